@@ -104,6 +104,10 @@ struct Shared {
   std::vector<T> knots;
   Grid<T> grid, twin;
   bspline::BSplineGenerator<T> gen;
+  // objects that nobody touches before the concurrent phase: whatever they
+  // initialise on first use is initialised under contention
+  bspline::BSplineGenerator<T> genFresh1, genFresh2;
+  Spline<T, 1> freshGeneral;
   std::vector<Spline<T, 0>> b0;
   std::vector<Spline<T, 1>> b1;
   std::vector<Spline<T, 2>> b2;
@@ -149,6 +153,9 @@ struct Shared {
   Shared(Rng &g)
       : pts(mkPts(g)), knots(mkKnots(pts)),
         grid(mkVec<T>(pts)), twin(mkVec<T>(pts)), gen(knots, grid),
+        genFresh1(knots), genFresh2(knots, twin),
+        freshGeneral(mkSpline<T, 1>(twin, 1, pts.size() - 1,
+                                    genCoefM(g, true, pts.size() - 3, 1))),
         b0(gen.template generateBSplines<0>()),
         b1(gen.template generateBSplines<1>()),
         b2(gen.template generateBSplines<2>()),
@@ -243,13 +250,20 @@ uint64_t runScript(const Shared<T> &S, uint64_t seed, size_t len, bool yields,
         d.val(LinearForm{}(S.b3[i3]));
         d.val(LinearForm{X<3>{}}(S.general));
         break;
-      case A_GENERATE:
+      case A_GENERATE: {
+        const size_t which = g.below(3);
+        const bspline::BSplineGenerator<T> &G =
+            which == 0 ? S.gen : (which == 1 ? S.genFresh1 : S.genFresh2);
         switch (g.below(3)) {
-          case 0: for (const auto &s : S.gen.template generateBSplines<2>()) d.spline(s); break;
-          case 1: for (const auto &s : S.gen.template generateBSplines<3>()) d.spline(s); break;
-          default: for (const auto &s : S.gen.template generateBSplines<4>()) d.spline(s);
+          case 0: for (const auto &s : G.template generateBSplines<2>()) d.spline(s); break;
+          case 1: for (const auto &s : G.template generateBSplines<3>()) d.spline(s); break;
+          default: for (const auto &s : G.template generateBSplines<4>()) d.spline(s);
         }
+        d.val(S.freshGeneral(x));
+        d.u(S.freshGeneral.isZero());
+        d.val(ScalarProduct{}(S.freshGeneral, S.freshGeneral));
         break;
+      }
       case A_ISZERO:
         d.u(S.b2[i].isZero());
         d.u(S.empty.isZero());
